@@ -25,6 +25,7 @@ import (
 	"github.com/chrislusf/seaweedfs/weed/filesys"
 	"github.com/chrislusf/seaweedfs/weed/filesys/meta_cache"
 	"github.com/chrislusf/seaweedfs/weed/pb/filer_pb"
+	"github.com/chrislusf/seaweedfs/weed/storage/needle"
 	"github.com/golang/protobuf/proto"
 	"google.golang.org/grpc"
 	"google.golang.org/grpc/keepalive"
@@ -55,7 +56,7 @@ type env struct {
 func (e *env) AssignVolume(ctx context.Context, req *filer_pb.AssignVolumeRequest) (*filer_pb.AssignVolumeResponse, error) {
 	key := atomic.AddUint64(&e.nextKey, 1)
 	cookie := uint32(key*2654435761+0x5bd1e995) | 1
-	fid := fmt.Sprintf("%d,%x%08x", 7, key, cookie)
+	fid := needle.NewFileId(7, key, cookie).String()
 	return &filer_pb.AssignVolumeResponse{FileId: fid, Url: e.volHost, PublicUrl: e.volHost, Count: 1, Collection: req.Collection, Replication: req.Replication}, nil
 }
 
